@@ -96,7 +96,7 @@ func (r *schedReader) Read(p []byte) (int, error) {
 // pieces of JSON string values: structural characters, quotes and backslashes, and texts that LOOK like escapes
 // (a literal backslash followed by u0008 is six characters of data, not a backspace)
 var jsonStrPieces = []string{"a", "{", "}", "\"", "\\", " ", "[", "]", ":", ",", "\n", "é", "\t", "}{", "\\\"",
-	"\\u0008", "\\u000c", "\\u003c", "\\u0026", "\\b", "\\f", "\\n", "\b", "\f", "<", ">", "&", "\U0001F600", "\u2028", "\\u2028", "\\ud83d", "\x7f"}
+	"\\u0008", "\\u000c", "\\u003c", "\\u0026", "\\b", "\\f", "\\n", "\b", "\f", "<", ">", "&", "\U0001F600", "\u2028", "\\u2028", "\\ud83d", "\x7f", "%", "%d", "%%", "%v", "100%"}
 
 func genJSONString(t *rapid.T) string {
 	n := rapid.IntRange(0, 5).Draw(t, "jsn")
